@@ -9,6 +9,7 @@ from props_client import *   # C11
 from props_e2e import *      # C02 C03 C12
 from props_tables import *   # C19 C20
 from props_idl import *      # C05 C06 C07 C08 C09
+from props_cert import *     # the certification service: stages of C08 and C10
 
 
 def replay(run, obj):
